@@ -1628,8 +1628,13 @@ def Mandatory(cls, **_kwargs):
         kwargs.update(dict(min_len=1))
 
     elif issubclass(cls, Array):
-        (k,v), = cls._type_info.items()
+        # customize first: the member type must be replaced in the new array
+        # type, not in the one that was passed in.
+        retval = cls.customize(**kwargs)
+        (k,v), = retval._type_info.items()
         if v.Attributes.min_occurs == 0:
-            cls._type_info[k] = Mandatory(v)
+            retval._type_info[k] = Mandatory(v)
+
+        return retval
 
     return cls.customize(**kwargs)
